@@ -491,6 +491,25 @@ theorem no_panic_node_registry_load :
       · rfl
       · split <;> rfl
 
+/-- `save` replaces the whole file: whatever the file held before, it holds exactly the new text after. -/
+theorem registry_save_replaces_file :
+    registrySaveSites = [] ∧ ∀ old new : Bytes, saveFile old new = new := by
+  refine ⟨by decide, fun old new => ?_⟩
+  have h : registrySaveTruncates = true := by decide
+  simp [saveFile, h]
+
+/-- `save(A) ; save(B) ; load` returns B (longer, equal or shorter than A): parsing the formatter's
+output gives the value back also when the file already existed. -/
+theorem registry_save_save_load_roundtrip (lenA lenB nodesB : Nat) (hB : 0 < lenB) :
+    saveSaveLoad lenA lenB nodesB = (lenB, .ok nodesB) := by
+  have h : registrySaveTruncates = true := by decide
+  have he : registryEmptyIsDefault = true := by decide
+  have hne : (List.replicate lenB 1).isEmpty = false := by
+    cases lenB with
+    | zero => omega
+    | succ n => rfl
+  simp [saveSaveLoad, saveFile, h, registryLoad, hne]
+
 /-- `AttoTokens::from_str` (model, round trip and soundness: C16): a value or an error for every
 string, with both overflow-prone steps going through checked arithmetic. -/
 theorem no_panic_atto_tokens_from_str :
@@ -552,3 +571,5 @@ end SafeNet.Props.C17
 #print axioms SafeNet.Props.C17.no_panic_craft_valid_multiaddr
 #print axioms SafeNet.Props.C17.no_panic_node_registry_load
 #print axioms SafeNet.Props.C17.no_panic_atto_tokens_from_str
+#print axioms SafeNet.Props.C17.registry_save_replaces_file
+#print axioms SafeNet.Props.C17.registry_save_save_load_roundtrip
